@@ -975,12 +975,7 @@ func (d *dlgWorld) emittedCount(id string) int {
 			n++
 		}
 	}
-	for _, f := range d.w.N.FailedUDP {
-		if m, _, err := sipwire.Parse(f.Data); err == nil && msgID(m) == id {
-			n++
-		}
-	}
-	return n
+	return n // datagram writes that failed are in the emissions too, marked
 }
 
 func distinctCount(xs []string) int {
